@@ -447,6 +447,78 @@ def gen_loop_check(rng, idx, g: "Grammar") -> LoopCheck:
                      None, "and", f"loop:{shape}:{rel}-bound", True, [], f"--loop {bound}", shape, k, mask, bound)
 
 
+SIB_FORMS = {
+    # name: (valid assertion lhs/rhs builder, violable assertion lhs/rhs builder, witness (x, y) violating the violable one)
+    # every operand pair is symbolic x symbolic, so the assertion-failure path survives the in-process branching check (the
+    # operation is an uninterpreted f_evm_* there) and is only refuted / confirmed by the external solver after refinement
+    "mul": (lambda x, y: (Bin("MUL", y, x), Bin("MUL", x, y)), lambda x, y: (Bin("MUL", y, y), Bin("MUL", x, y)), (1, 2)),
+    "mulsum": (lambda x, y: (Bin("ADD", Bin("MUL", x, y), Bin("MUL", y, x)), Bin("MUL", Const(2), Bin("MUL", x, y))),
+               lambda x, y: (Bin("ADD", Bin("MUL", x, y), Bin("MUL", y, y)), Bin("MUL", Const(2), Bin("MUL", x, y))), (1, 2)),
+}
+
+
+@dataclass
+class SiblingCheck(Check):
+    """several assertion-bearing sibling paths with structurally identical bodies `assert(L(x, y) == R(x, y))`, selected by the
+    length of a dynamic parameter (halmos' own per-size branches) or by an `if (a == k_i)` ladder; some assertions are valid
+    (their failure query is unsat, after refinement), exactly one is violable. `siblings` = [(selector E | None for "else",
+    lhs E, rhs E)] in program order; `atoms`/`witness` describe the violable one (sweep, messages)."""
+    siblings: list = field(default_factory=list)
+
+    def body(self) -> list:
+        items = list(self.prologue)
+        for cond, lhs, rhs in self.siblings:
+            bad = Not(Bin("EQ", lhs, rhs))
+            if self.kind == "assertTrue":
+                blk = vm_call("assertTrue", [Bin("EQ", lhs, rhs).compile()]) + ["STOP"]
+            else:
+                blk = asm.if_then(bad.compile(), asm.panic(1) if self.kind == "panic" else asm.set_fail_flag() + ["STOP"]) + ["STOP"]
+            if cond is None:
+                items += blk
+            else:
+                nxt = asm.fresh("sib")
+                items += cond.compile() + ["ISZERO", ("ref", nxt), "JUMPI"] + blk + [("label", nxt)]
+        return items + ["STOP"]
+
+
+def gen_sibling_check(rng, idx, g: "Grammar", shape=None, form=None, violable_at=None, kind=None) -> SiblingCheck:
+    shape = shape or rng.choice(["dynlen-bytes", "dynlen-bytes", "dynlen-array", "dynlen-3way", "ladder", "ladder"])
+    form = form or rng.choice(sorted(SIB_FORMS))
+    valid, viol, (wx, wy) = SIB_FORMS[form]
+    kind = kind or rng.choice(["panic", "panic", "flag", "assertTrue"])
+    if shape.startswith("dynlen"):
+        typ = "uint256[]" if shape == "dynlen-array" else "bytes"
+        params = [Param(typ, "d"), Param("uint256", "x"), Param("uint256", "y")]
+        x, y = Arg(1), Arg(2)
+        sizes = g.array_sizes if typ == "uint256[]" else g.bytes_sizes
+        nz = [n for n in sizes if n != 0]
+        if shape == "dynlen-3way":
+            conds = [Bin("EQ", DynLen(0), Const(nz[-1])), Bin("EQ", DynLen(0), Const(nz[0])), None]
+            lens = [nz[-1], nz[0], 0]
+        else:
+            conds = [Not(Not(DynLen(0))), None]          # if (d.length != 0) … else …
+            lens = [nz[0], 0]
+        pos = violable_at if violable_at is not None else rng.randrange(len(conds))
+        pos %= len(conds)
+        sibs = [(c,) + (viol(x, y) if i == pos else valid(x, y)) for i, c in enumerate(conds)]
+        n = lens[pos]
+        dv = bytes(n) if typ == "bytes" else [0] * n
+        wit = [dv, wx, wy]
+        sel = conds[pos] if conds[pos] is not None else Bin("EQ", DynLen(0), Const(0))
+    else:
+        params = [Param("uint256", "a"), Param("uint256", "x"), Param("uint256", "y")]
+        x, y = Arg(1), Arg(2)
+        ks = rng.sample([1, 2, 3, 5, 7, 100, 1 << 200], rng.choice([2, 3]))
+        conds = [Bin("EQ", Arg(0), Const(k)) for k in ks]
+        pos = (violable_at if violable_at is not None else rng.randrange(len(conds))) % len(conds)
+        sibs = [(c,) + (viol(x, y) if i == pos else valid(x, y)) for i, c in enumerate(conds)]
+        wit = [ks[pos], wx, wy]
+        sel = conds[pos]
+    l, r = viol(x, y)
+    return SiblingCheck(f"check_{idx}_sib{g.n}", params, [sel, Not(Bin("EQ", l, r))], kind, 1, True, wit, None, "and",
+                        f"siblings:{shape}:{form}:violable@{pos}of{len(sibs)}", True, [], None, sibs)
+
+
 @dataclass
 class Generated:
     desc: TestContract
@@ -714,7 +786,7 @@ class Grammar:
 
 
 def gen_contract(rng, name="T", ntests=3, pool=(), with_helper=None, bytes_sizes=None, array_sizes=None,
-                 panic_codes=(1,), refine=True, touch=False, loops=False) -> Generated:
+                 panic_codes=(1,), refine=True, touch=False, loops=False, siblings=None) -> Generated:
     """setUp() storing constants (optionally deploying a helper whose address is kept in a slot) + `ntests` check functions,
     alternately reachable / unreachable, at least one with a dynamic parameter and one needing refinement per few contracts."""
     g = Grammar(rng, pool, bytes_sizes, array_sizes, panic_codes, refine)
@@ -750,6 +822,10 @@ def gen_contract(rng, name="T", ntests=3, pool=(), with_helper=None, bytes_sizes
     if loops:
         g.n += 1
         checks.append(gen_loop_check(rng, ntests, g))
+    if siblings:
+        g.n += 1
+        sk = siblings if isinstance(siblings, dict) else {}
+        checks.append(gen_sibling_check(rng, ntests + 1, g, **sk))
     if touch:
         # every test bumps slot 7 first and its guard requires the bumped value 1: a write leaking from another test (or from a
         # sibling path) turns the guard false
